@@ -78,6 +78,7 @@ type (
 		orderByDefinition   OrderByDefinition
 		wg                  sync.WaitGroup
 		singletonExecutions map[string]any
+		singletonMut        sync.Mutex
 		postProcessors      []func() error
 		dual                bool
 		options             *Options
@@ -1493,7 +1494,7 @@ func FunExpr(query *Query, current Map, expr *sqlparser.FuncExpr, opts ...ExprOp
 	case "once":
 		{
 			name := fmt.Sprintf("%s.%s", strings.ToLower(expr.Qualifier.String()), expr.Name.Lowered())
-			rs, ok := query.singletonExecutions[name]
+			rs, ok := query.singleton(name)
 			if !ok {
 				slice, e := FuncArgReader(query, current, expr.Exprs)
 				if e != nil {
@@ -1503,7 +1504,7 @@ func FunExpr(query *Query, current Map, expr *sqlparser.FuncExpr, opts ...ExprOp
 				if err != nil {
 					return nil, err
 				}
-				query.singletonExecutions[name] = rs
+				query.setSingleton(name, rs)
 				return rs, nil
 			}
 			return rs, nil
@@ -1511,7 +1512,7 @@ func FunExpr(query *Query, current Map, expr *sqlparser.FuncExpr, opts ...ExprOp
 	case "global":
 		{
 			name := fmt.Sprintf("%s.%s", strings.ToLower(expr.Qualifier.String()), expr.Name.Lowered())
-			rs, ok := query.singletonExecutions[name]
+			rs, ok := query.singleton(name)
 			if !ok {
 				exprs := make([]sqlparser.Expr, 0)
 				for _, expr := range expr.Exprs {
@@ -1529,7 +1530,7 @@ func FunExpr(query *Query, current Map, expr *sqlparser.FuncExpr, opts ...ExprOp
 				if err != nil {
 					return nil, err
 				}
-				query.singletonExecutions[name] = rs
+				query.setSingleton(name, rs)
 				return rs, nil
 			}
 			return rs, nil
@@ -1572,7 +1573,7 @@ func AggrFunExpr(query *Query, current Map, expr sqlparser.AggrFunc, opts ...Exp
 	// memoised per aggregate expression, not per function name: SUM(a) and
 	// SUM(b) in one query are different computations
 	memoKey := sqlparser.String(expr)
-	rs, ok := query.singletonExecutions[memoKey]
+	rs, ok := query.singleton(memoKey)
 	if !ok {
 		rows := query.from
 		if all, ok := current["*"].([]any); ok {
@@ -1586,7 +1587,7 @@ func AggrFunExpr(query *Query, current Map, expr sqlparser.AggrFunc, opts ...Exp
 		if err != nil {
 			return nil, err
 		}
-		query.singletonExecutions[memoKey] = result
+		query.setSingleton(memoKey, result)
 		return result, nil
 	}
 	return rs, nil
@@ -1922,6 +1923,22 @@ func (query *Query) Exec() (result []any, err error) {
 		return slice, nil
 	}
 	return []any{rs}, nil
+}
+
+// singleton and setSingleton guard the per-query memo of ONCE/GLOBAL calls and
+// whole-table aggregates: the workers of a PARALLEL join evaluate ON - and a
+// ONCE call in it - concurrently on the same query
+func (query *Query) singleton(key string) (any, bool) {
+	query.singletonMut.Lock()
+	defer query.singletonMut.Unlock()
+	rs, ok := query.singletonExecutions[key]
+	return rs, ok
+}
+
+func (query *Query) setSingleton(key string, value any) {
+	query.singletonMut.Lock()
+	defer query.singletonMut.Unlock()
+	query.singletonExecutions[key] = value
 }
 
 // callFunction invokes a user function on a goroutine of its own (ASYNC, SPIN,
